@@ -15,11 +15,20 @@ func init() {
 		ID:    "C05",
 		Level: "exploration",
 		Rule: "all 169 instantiations of the nine conversions x channel counts 1..8 x (source window, destination window) shape pairs with the source shorter than, equal to and longer than the destination, windows of larger stamped buffers, non-frame-aligned lengths x seeded sample values (boundary and random integers; floats in and far outside [-1,1], +-Inf, subnormals, NaN for float->float only); " +
-			"two canary arenas (source and destination) are re-read through the hook; every written position is compared with the result of the SAME function on a 1-channel 1-sample buffer holding the same value (position independence), float->float additionally with value preservation / nearest-float32; " +
+			"two canary arenas (source and destination) are re-read through the hook; every written position is compared with the result of the SAME function on a 1-channel 1-sample buffer holding the same value (position independence), float->float additionally with value preservation / nearest-float32; in addition one fixed input vector per instantiation is converted in three fresh processes that visit the instantiations in different orders, and the driver requires identical result digests (no dependence on the process's history); " +
 			"distinct = distinct (instantiation, shape pair) tuples; non-trivial = common prefix n > 0",
 		Assume: []string{"NaN excluded for float->fixed (result unspecified)", "the numeric correctness of the fixed-point formulas is the subject of C06..C09, here only structure, position independence and float->float value preservation"},
-		Plan:   func(tier string) []Batch { return split("convs", 13, 1200) },
-		Run:    runC05,
+		Plan: func(tier string) []Batch {
+			bs := split("convs", 13, 1200)
+			// the same fixed inputs through all instantiations in opposite
+			// orders, each in its own fresh process: results must not depend on
+			// what the process converted before
+			bs = append(bs, Batch{Name: "digest-forward", Mode: "digest-forward", NBatch: 1, WatchdogS: 600, Weight: 1})
+			bs = append(bs, Batch{Name: "digest-reverse", Mode: "digest-reverse", NBatch: 1, WatchdogS: 600, Weight: 1})
+			bs = append(bs, Batch{Name: "digest-interleaved", Mode: "digest-interleaved", NBatch: 1, WatchdogS: 600, Weight: 1})
+			return bs
+		},
+		Run: runC05,
 	})
 }
 
@@ -63,7 +72,72 @@ func nearestF32OK(v float64, r float64) bool {
 	return true
 }
 
+// c05Digests converts one fixed input vector per instantiation (a function of
+// the instantiation only) and reports a digest of the results; the driver
+// requires the digests of different processes to agree.
+func c05Digests(c *core.Ctx) {
+	order := make([]int, len(dyn.Convs))
+	for i := range order {
+		order[i] = i
+	}
+	switch c.Mode {
+	case "digest-reverse":
+		for i, j := 0, len(order)-1; i < j; i, j = i+1, j-1 {
+			order[i], order[j] = order[j], order[i]
+		}
+	case "digest-interleaved":
+		// destinations of the same source type visited widest first
+		for i := 0; i+1 < len(order); i += 2 {
+			order[i], order[i+1] = order[i+1], order[i]
+		}
+	}
+	for _, ci := range order {
+		cv := dyn.Convs[ci]
+		r := core.NewRand(12345, core.HashStr(cv.Name())) // independent of VERIF_SEED and of the order
+		n := 700
+		in := make([]dyn.Val, 0, n+300)
+		if cv.S.Bits == 8 {
+			for v := 0; v < 256; v++ { // every 8-bit code
+				if cv.S.Kind == dyn.KInt {
+					in = append(in, dyn.IntVal(int64(v)-128))
+				} else {
+					in = append(in, dyn.UintVal(uint64(v)))
+				}
+			}
+		}
+		for len(in) < n {
+			in = append(in, randSample(r, cv.S.TypeInfo, cv.Fn == "FloatAsFloat"))
+		}
+		src := cv.S.Alloc(signal.Allocator{Channels: 2, Length: len(in)/2 + 1, Capacity: len(in)/2 + 1})
+		dst := cv.D.Alloc(signal.Allocator{Channels: 2, Length: len(in)/2 + 1, Capacity: len(in)/2 + 1})
+		for i, v := range in {
+			src.SetSample(i, v)
+		}
+		h := core.NewHash()
+		if p, msg := core.Guard(func() { h.Int(cv.Call(src, dst)) }); p {
+			c.Violate(cv.Name()+"|panic", "digest/"+cv.Name(), "conversion panicked: "+msg, nil)
+			continue
+		}
+		for i := 0; i < dst.Len(); i++ {
+			v := dst.Sample(i)
+			if v.K == dyn.KFloat && math.IsNaN(v.F) {
+				h.U64(0x7ff8dead)
+			} else {
+				h.U64(v.Bits())
+			}
+		}
+		c.Digest(cv.Name(), fmt.Sprintf("%016x", h.Sum()))
+		c.Eval(1)
+		c.Distinct(core.NewHash().Str(c.Mode).Str(cv.Name()).Sum())
+		c.Obs("digest_conversions", 1)
+	}
+}
+
 func runC05(c *core.Ctx) {
+	if len(c.Mode) > 6 && c.Mode[:6] == "digest" {
+		c05Digests(c)
+		return
+	}
 	for ci, cv := range dyn.Convs {
 		if !c.Mine(ci) {
 			continue
